@@ -550,6 +550,7 @@ func init() {
 		checkCoercionErrors(r, prog, a, "c02")
 		checkJSONNumber(r, prog, a, "c02")
 		checkElementTransparency(r, prog, a, "c02")
+		checkDerefHelpers(r, prog, "c02")
 		r.importing = "C09"
 		checkComparatorCalls(r, prog, a, a.EvalSet) // what a comparator compares with is the literal read for that very kind, without error
 		r.importing = "C19"
@@ -557,6 +558,8 @@ func init() {
 		if g := loadGrammars(r, prog); g != nil {
 			r.importing = "C16"
 			checkLiteralFidelity(r, NewGA(prog, g.Tab)) // the literal compared is the text the quotes enclose, escapes decoded
+			r.importing = "C15"
+			checkEngineInvariants(r, prog, "c15") // … whatever characters it holds: a validly encoded U+FFFD is a character like any other
 		}
 		r.importing = ""
 		r.Technique = "sibling-table extraction by abstract execution per reflect.Kind (kind→coercion, kind→comparator) compared with a spec table transcribed from the statement; constant-argument and single-call checks on the strconv wrappers; conversion census (no integer/float detour); path analysis of coercion-error propagation; event-order analysis of the json.Number narrowing"
@@ -571,4 +574,59 @@ func matcherValueKey(st *pstate, ev *Event) string {
 		return ""
 	}
 	return v.Key()
+}
+
+// checkDerefHelpers: a helper that looks through pointers (reflect.Type → reflect.Type or reflect.Value → reflect.Value,
+// calling Elem on what it was given) looks through *every* level: whatever it returns is not a pointer any more (nor an
+// interface, for values). An `if` where the loop was strips one level only, and a **T element finds no comparator.
+func checkDerefHelpers(r *Run, prog *Program, pfx string) {
+	ke := &kindEnv{prog: prog}
+	n := 0
+	for _, fn := range prog.ModuleFuncs() {
+		if fn.Pkg != prog.BexprSSA || len(fn.Blocks) == 0 || len(fn.Params) != 1 || fn.Signature.Results().Len() != 1 {
+			continue
+		}
+		pt, rt := fn.Params[0].Type(), fn.Signature.Results().At(0).Type()
+		isT := isReflectType(pt) && isReflectType(rt)
+		isV := isReflectValue(pt) && isReflectValue(rt)
+		if !isT && !isV {
+			continue
+		}
+		callsElem := false
+		for _, b := range fn.Blocks {
+			for _, ins := range b.Instrs {
+				if c, ok := ins.(ssa.CallInstruction); ok {
+					if c.Common().IsInvoke() && c.Common().Method.Name() == "Elem" {
+						callsElem = true
+					}
+					if isReflectMethod(c.Common().StaticCallee(), "Elem") {
+						callsElem = true
+					}
+				}
+			}
+		}
+		if !callsElem {
+			continue
+		}
+		n++
+		forbidden := ks(kPtr)
+		if isV {
+			forbidden = ks(kPtr, kInterface)
+		}
+		ps := NewPathSim(prog)
+		ps.maxVisits = 3
+		ok, why := true, ""
+		for _, sm := range ps.Run(fn) {
+			if sm.Ret == nil || len(sm.Results) != 1 {
+				continue
+			}
+			k := ke.kinds(sm.St, sm.Results[0])
+			if k&forbidden != 0 {
+				ok = false
+				why = fmt.Sprintf("%s may return something of kind %s (%s) [path %s]", fn.Name(), k&forbidden, shortKey(sm.Results[0]), strings.Join(sm.St.trail, " "))
+			}
+		}
+		r.Check(pfx+".element-transparency", "deref:"+fn.Name(), prog.pos(fn.Pos()), ok, "a helper that looks through pointers must look through every level: "+why)
+	}
+	r.Check(pfx+".element-transparency", "deref:census", prog.pos(prog.BexprSSA.Func("init").Pos()), n >= 1, "no pointer-stripping helper found")
 }
